@@ -57,11 +57,11 @@ def r1(run, db):
     armed = None
     for site, sw in cl.switches():
         if sw["dty"] == "bool":
-            roots = cl.origins(sw["discr"])
-            if any(any(e.endswith(":" + armed_name) for e in r.get("proj", [])) for r in roots):
+            roots = flag_roots(cl, sw["discr"])
+            if any(any(e.endswith(":" + armed_name) for e in r.get("proj", []) + r.get("trail", [])) for r in roots):
                 armed = site
     run.check(armed is not None, "armed-gate", "cleanup starts with a test of the guard's `%s` flag" % armed_name, "no switch on the armed flag found in cleanup", cl.where())
-    te = cl.edge_of(armed, guard_flag_inits(db)[0]) if armed is not None else None
+    te = flag_edge_for_value(cl, armed, guard_flag_inits(db)[0]) if armed is not None else None
     if te:
         for nm, s in (("set_status(Stopping)", a), ("terminate()", t), ("set_status(Stopped)", z)):
             run.check(all_paths_from_edge_pass(cl, te, [s]), "armed->" + nm, "every path from the armed edge to the end of cleanup passes through %s" % nm,
